@@ -1174,6 +1174,32 @@ async fn run_async(cfg: &Cfg, ch: &mut Chooser) -> RunOut {
     }
 }
 
+static PROGRESS: std::sync::atomic::AtomicU64 = std::sync::atomic::AtomicU64::new(0);
+
+/// An execution that parks forever (every task blocked, no timer pending) would hang the
+/// whole check: a watchdog turns "no execution finished for 180 s" into a machinery error.
+pub fn start_watchdog(id: &str) {
+    use std::sync::atomic::Ordering;
+    let id = id.to_string();
+    std::thread::spawn(move || {
+        let mut last = PROGRESS.load(Ordering::Relaxed);
+        let mut idle = 0u32;
+        loop {
+            std::thread::sleep(Duration::from_secs(10));
+            let now = PROGRESS.load(Ordering::Relaxed);
+            if now == last {
+                idle += 1;
+                if idle >= 18 {
+                    machinery_error(&id, "watchdog: no execution of the Daser system finished for 180 s (an execution is stuck with every task blocked)");
+                }
+            } else {
+                idle = 0;
+                last = now;
+            }
+        }
+    });
+}
+
 /// One complete execution on a fresh current-thread runtime with the clock paused.
 pub fn run_once(cfg: &Cfg, ch: &mut Chooser) -> RunOut {
     let rt = tokio::runtime::Builder::new_current_thread()
@@ -1183,6 +1209,7 @@ pub fn run_once(cfg: &Cfg, ch: &mut Chooser) -> RunOut {
         .expect("runtime");
     let out = rt.block_on(run_async(cfg, ch));
     drop(rt);
+    PROGRESS.fetch_add(1, std::sync::atomic::Ordering::Relaxed);
     out
 }
 
